@@ -69,7 +69,7 @@ out.append('impl std::hash::Hash for Version {\n'+inject(fn_in_impl(LIB,r'^impl 
 out.append(P('spec_bound.rs')); out.append(P('spec_bound_traits.rs')); out.append(P('spec_range.rs')); out.append(P('spec_iter.rs')); out.append(P('spec_fold.rs'))
 partial=pubify(strip_derive(item(RNG,r'^struct Partial'))); opn=pubify(strip_derive(item(RNG,r'^enum Operation')))
 out+=[partial,clone_impl('Partial'),opn.replace('#[derive(Debug, Copy, Eq, PartialEq)]','#[derive(Debug, Copy, Clone, Eq, PartialEq)]'),'pub const MAX_SAFE_INTEGER: u64 = 900_719_925_474_099;\n']
-out.append(P('spec_npm.rs')); out.append(P('spec_repr.rs')); out.append(P('spec_minv.rs'))
+out.append(P('spec_npm.rs')); out.append(P('spec_repr.rs')); out.append(P('spec_minv.rs')); out.append(P('spec_equiv.rs'))
 out.append('''
 use vstd::std_specs::convert::*;
 impl FromSpecImpl<(i32, i32, i32)> for Version { open spec fn obeys_from_spec() -> bool { false } open spec fn from_spec(v: (i32, i32, i32)) -> Self { arbitrary() } }
@@ -311,7 +311,17 @@ HINT="""{
  }
     """
 out.append('fn caret_desugar(parsed: Partial) -> (r: Option<BoundSet>)\n'+P('contract_caret.rs')+HINT+caret_m+'\n}\n')
-out.append('fn primitive_desugar(parsed: (Operation, Partial)) -> (r: Option<BoundSet>)\n'+P('contract_primitive.rs')+HINT+'use Operation::*;\n'+prim_m+'\n}\n')
+# the same lifted body is checked once per operator (keeps each query small)
+pc=P('contract_primitive.rs').split('\n')
+for op in ['Exact','GreaterThan','GreaterThanEquals','LessThan','LessThanEquals']:
+    lines=[l for l in pc if ('Operation::'+op+' ') in l]
+    contract="    requires wf_partial(parsed.1), parsed.0 == Operation::"+op+",\n    ensures\n"+'\n'.join(lines)+'\n'
+    hint=HINT
+    if op=='LessThanEquals':
+        hint=HINT.replace(' }\n    ',"""        assert forall|w: Seq<Identifier>| #![trigger pre_cmp(w, pre0())] w.len() > 0 implies pre_cmp(w, pre0()) != Ordering::Less by { lemma_least_pre0(w); lemma_pre_flip(w, pre0()); }
+ }
+    """,1)
+    out.append('fn primitive_desugar_'+op+'(parsed: (Operation, Partial)) -> (r: Option<BoundSet>)\n'+contract+hint+'use Operation::*;\n'+prim_m+'\n}\n')
 out.append('fn tilde_desugar(parsed: (Option<&str>, Partial)) -> (r: Option<BoundSet>)\n'+P('contract_tilde.rs')+HINT+tilde_m+'\n}\n')
 out.append('fn hyphen_desugar(lower: Option<Partial>, upper: Partial) -> (r: Option<BoundSet>)\n'+P('contract_hyphen.rs')+HINT+hy_text+'\n bounds\n}\n')
 out.append('fn partial_desugar(partial: Partial) -> (r: Option<BoundSet>)\n'+P('contract_partial.rs')+HINT+partial_m+'\n}\n')
